@@ -146,7 +146,7 @@ class SmallEval:
                 return self.consts[p]
             if self.const_nodes:
                 node = self.const_nodes.get(p) or self.const_nodes.get(p.split("::")[-1])
-                if node is not None and self._depth < 4:
+                if node is not None and self._depth < 10:
                     self._depth += 1
                     try:
                         return self.ev(node, Scope(None, {}))
@@ -164,6 +164,12 @@ class SmallEval:
             if isinstance(b, tuple) and b and b[0] == "tuple" and str(e["name"]).isdigit():
                 return b[1][int(e["name"])]
             raise NoEval(f"field {e['name']}")
+        if k == "index":
+            base = self.ev(e["e"], env)
+            i_ = self.ev(e["i"], env)
+            if isinstance(base, tuple) and base and base[0] == "list" and isinstance(i_, int) and 0 <= i_ < len(base[1]):
+                return base[1][i_]
+            raise NoEval("index out of the modelled range")
         if k == "tuple":
             return ("tuple", [self.ev(x, env) for x in e["elems"]])
         if k == "struct":
@@ -220,6 +226,13 @@ class SmallEval:
                 if isinstance(base, dict):
                     base[tgt["name"]] = val
                     return ("unit",)
+            if tgt.get("k") == "index":
+                base = self.ev(tgt["e"], env)
+                i_ = self.ev(tgt["i"], env)
+                if isinstance(base, tuple) and base and base[0] == "list" and isinstance(i_, int) and 0 <= i_ < len(base[1]):
+                    base[1][i_] = val
+                    return ("unit",)
+                raise NoEval("index assignment out of the modelled range")
             raise NoEval(f"assignment to `{src(tgt)[:30]}`")
         if k == "return":
             raise _Return(self.ev(e.get("e"), env) if e.get("e") else ("unit",))
@@ -234,6 +247,9 @@ class SmallEval:
                 self._bool(l)
                 return l or self._bool(self.ev(e["r"], env))
             l, r = self.ev(e["l"], env), self.ev(e["r"], env)
+            if op in ("==", "!="):
+                l = l[1] if isinstance(l, tuple) and l and l[0] == "text" else l
+                r = r[1] if isinstance(r, tuple) and r and r[0] == "text" else r
             if op == "==":
                 return l == r
             if op == "!=":
@@ -298,6 +314,8 @@ class SmallEval:
                     return ("Some", args[0])
                 if name in ("Ok", "Err") and len(args) == 1:
                     return (name, args[0])
+                if name == "Option::from" and len(args) == 1:
+                    return ("Some", args[0])
                 if name.split("<")[0].endswith(("BTreeMap::new", "HashMap::new")) and not args:
                     return ("map", {})
                 if name.endswith("Vec::new") and not args:
@@ -312,13 +330,24 @@ class SmallEval:
                 fn_ = self.funcs.get(name) or self.funcs.get(last)
                 if fn_ is not None:
                     return fn_(*args)
-                if "::" in name and (name.split("::")[-2], last) in self.local_methods and self._depth < 4:
+                if name.startswith("Self::") and self._depth < 10:
+                    # an associated function of the type being folded: by name among the methods / local functions the rule supplied
+                    cand = [f_ for k_, f_ in self.local_methods.items() if (k_[1] if isinstance(k_, tuple) else k_) == last]
+                    if not cand and self.local_fns and last in self.local_fns:
+                        cand = [self.local_fns[last]]
+                    if len(cand) == 1:
+                        self._depth += 1
+                        try:
+                            return self.call(cand[0], args)
+                        finally:
+                            self._depth -= 1
+                if "::" in name and (name.split("::")[-2], last) in self.local_methods and self._depth < 10:
                     self._depth += 1
                     try:
                         return self.call(self.local_methods[(name.split("::")[-2], last)], args)
                     finally:
                         self._depth -= 1
-                if self.local_fns is not None and "::" not in name and name in self.local_fns and self._depth < 4:
+                if self.local_fns is not None and "::" not in name and name in self.local_fns and self._depth < 10:
                     self._depth += 1
                     try:
                         return self.call(self.local_fns[name], args)
@@ -337,7 +366,7 @@ class SmallEval:
                 return ("map", dict(recv[1]))
             if m in ("clone", "as_ref", "to_owned", "deref", "borrow", "copied", "cloned", "as_deref", "as_mut", "borrow_mut") and not args:
                 return recv
-            if isinstance(recv, dict) and m in self.local_methods and self._depth < 4:
+            if isinstance(recv, dict) and m in self.local_methods and self._depth < 10:
                 fn_ = self.local_methods[m]
                 self._depth += 1
                 try:
@@ -366,7 +395,7 @@ class SmallEval:
                 else:
                     raise NoEval(f"argument of .{m}()")
                 return r if m == "and_then" else (recv[0], r)
-            if isinstance(recv, dict) and (recv.get("__struct__"), m) in self.local_methods and self._depth < 4:
+            if isinstance(recv, dict) and (recv.get("__struct__"), m) in self.local_methods and self._depth < 10:
                 fn_ = self.local_methods[(recv.get("__struct__"), m)]
                 self._depth += 1
                 try:
@@ -539,6 +568,9 @@ class SmallEval:
                     elif a0.get("k") == "path" and (a0["p"] in self.funcs or a0["p"].split("::")[-1] in self.funcs):
                         f_ = self.funcs.get(a0["p"]) or self.funcs[a0["p"].split("::")[-1]]
                         ap = f_
+                    elif a0.get("k") == "path" and self.local_fns and a0["p"] in self.local_fns:
+                        def ap(x, fn_=self.local_fns[a0["p"]]):
+                            return self.call(fn_, [x])
                     else:
                         raise NoEval(f"argument of .{m}()")
                     if m == "any":
@@ -644,7 +676,8 @@ class SmallEval:
                 return v[1] == p["p"] or v[1].split("::")[-1] == p["p"].split("::")[-1]
             return v == self.consts.get(p["p"], p["p"])
         if k == "plit":
-            return v == self.ev(p["e"], {})
+            lit = self.ev(p["e"], {})
+            return (v[1] if isinstance(v, tuple) and v and v[0] == "text" else v) == (lit[1] if isinstance(lit, tuple) and lit and lit[0] == "text" else lit)
         if k == "pstruct":
             # an enum variant / struct pattern against ("variant", "Core::Or", {fields}) or a dict with __struct__
             want = p["p"]
